@@ -419,13 +419,64 @@ func runC18(c *Ctx) {
 	if nacc < 3 {
 		c.viol("C18.R4", "anchor-lost:pending-accesses", "", fmt.Sprintf("only %d accesses of the pending map found", nacc))
 	}
-	// Call: the function that stores into the pending map
+	// helpers that register / unregister with their own parameters: pending[<param>] = <param>, delete(pending, <param>)
+	paramIndex := func(fd *ast.FuncDecl, e ast.Expr) int {
+		id, ok := ast.Unparen(e).(*ast.Ident)
+		if !ok {
+			return -1
+		}
+		i := 0
+		for _, prm := range fd.Type.Params.List {
+			for _, nm := range prm.Names {
+				if info.Defs[nm] == info.ObjectOf(id) {
+					return i
+				}
+				i++
+			}
+		}
+		return -1
+	}
+	storeHelpers := map[types.Object]int{} // helper → index of the channel parameter
+	deleteHelpers := map[types.Object]bool{}
 	for _, fd := range allFuncDecls(p) {
-		var store *ast.AssignStmt
 		ast.Inspect(fd.Body, func(n ast.Node) bool {
-			if as, ok := n.(*ast.AssignStmt); ok && len(as.Lhs) == 1 {
-				if ix, ok := as.Lhs[0].(*ast.IndexExpr); ok && isPending(ix.X) {
-					store = as
+			switch n := n.(type) {
+			case *ast.AssignStmt:
+				if len(n.Lhs) == 1 && len(n.Rhs) == 1 {
+					if ix, ok := n.Lhs[0].(*ast.IndexExpr); ok && isPending(ix.X) {
+						if ki, vi := paramIndex(fd, ix.Index), paramIndex(fd, n.Rhs[0]); ki >= 0 && vi >= 0 {
+							storeHelpers[info.Defs[fd.Name]] = vi
+						}
+					}
+				}
+			case *ast.CallExpr:
+				if id, ok := n.Fun.(*ast.Ident); ok && id.Name == "delete" && len(n.Args) == 2 && isPending(n.Args[0]) && paramIndex(fd, n.Args[1]) >= 0 {
+					deleteHelpers[info.Defs[fd.Name]] = true
+				}
+			}
+			return true
+		})
+	}
+	// Call: the function that registers a reply channel in the pending map (directly or through such a helper)
+	for _, fd := range allFuncDecls(p) {
+		if _, isHelper := storeHelpers[info.Defs[fd.Name]]; isHelper {
+			continue
+		}
+		var store ast.Node
+		var storedChan ast.Expr
+		ast.Inspect(fd.Body, func(n ast.Node) bool {
+			switch n := n.(type) {
+			case *ast.AssignStmt:
+				if len(n.Lhs) == 1 {
+					if ix, ok := n.Lhs[0].(*ast.IndexExpr); ok && isPending(ix.X) {
+						store, storedChan = n, n.Rhs[0]
+					}
+				}
+			case *ast.CallExpr:
+				if fn := calleeOf(info, n); fn != nil {
+					if vi, ok := storeHelpers[fn]; ok && vi < len(n.Args) {
+						store, storedChan = n, n.Args[vi]
+					}
 				}
 			}
 			return true
@@ -455,7 +506,7 @@ func runC18(c *Ctx) {
 			"the request is sent before the reply channel is registered in the pending map: a fast response is dropped by the reader and the call hangs until its context ends")
 		// channel capacity
 		var chObj types.Object
-		if id, ok := store.Rhs[0].(*ast.Ident); ok {
+		if id, ok := ast.Unparen(storedChan).(*ast.Ident); ok {
 			chObj = info.ObjectOf(id)
 		}
 		capOK := false
@@ -489,6 +540,9 @@ func runC18(c *Ctx) {
 		deferredDel := false
 		for _, dc := range deferredCalls(fd.Body) {
 			if id, ok := dc.Fun.(*ast.Ident); ok && id.Name == "delete" && len(dc.Args) == 2 && isPending(dc.Args[0]) {
+				deferredDel = true
+			}
+			if fn := calleeOf(info, dc); fn != nil && deleteHelpers[fn] {
 				deferredDel = true
 			}
 		}
